@@ -4,7 +4,10 @@
 (* is a behaviour of HierConfig.  Reset lines carry the kind, the tree the driver loaded          *)
 (* (concrete component names, canonical value strings, EmptyVal for written-down non-values) and  *)
 (* the value of the setting when nothing is configured; Lookup lines carry the path and what the  *)
-(* real function returned, in the same canonical form.                                            *)
+(* real function returned, in the same canonical form.  SetAt / Unset / Reconfigure lines are     *)
+(* configuration changes made in the SAME process (no restart): they carry the action's arguments *)
+(* and the complete tree the driver believes to be in force afterwards, which must be the tree    *)
+(* the specification arrives at; every later Lookup line is judged against that tree.             *)
 EXTENDS HierConfig, TraceLib
 
 VARIABLE l
@@ -39,7 +42,31 @@ TraceLookup ==
     /\ Lookup(Trace[l].path)
     /\ last'.value = Trace[l].got
 
-TraceNext == TraceReset \/ TraceLookup
+UniquePoints(line) == Cardinality({e.p : e \in SeqToSet(line.tree)}) = Len(line.tree)
+
+TraceSetAt ==
+    /\ IsEvent("SetAt")
+    /\ Trace[l].kind = kind
+    /\ SetAt(Trace[l].path, Trace[l].v)
+    /\ UniquePoints(Trace[l])
+    /\ tree' = LoggedTree(Trace[l])
+    /\ dflt' = Trace[l].dflt
+
+TraceUnset ==
+    /\ IsEvent("Unset")
+    /\ Trace[l].kind = kind
+    /\ Unset(Trace[l].path)
+    /\ UniquePoints(Trace[l])
+    /\ tree' = LoggedTree(Trace[l])
+    /\ dflt' = Trace[l].dflt
+
+TraceReconfigure ==
+    /\ IsEvent("Reconfigure")
+    /\ Trace[l].kind = kind
+    /\ UniquePoints(Trace[l])
+    /\ Reconfigure(LoggedTree(Trace[l]), Trace[l].dflt)
+
+TraceNext == TraceReset \/ TraceLookup \/ TraceSetAt \/ TraceUnset \/ TraceReconfigure
 
 TraceSpec == TraceInit /\ [][TraceNext]_tvars
 
